@@ -49,7 +49,7 @@ var jsonJunk = []string{
 }
 
 var queryJunk = []string{
-	"page_size=-1", "page_size=-5", "page_size=0", "page_size=99999999999999999999", "page_size=abc", "page_size=1e3", "page_size=0x10", "page_size=", "page_token=", "page_token=zzz",
+	"page_size=-1", "page_size=-5", "page_size=0", "page_size=99999999999999999999", "page_size=abc", "page_size=1e3", "page_size=0x10", "page_size=", "page_token=", "page_token=zzz", "page_token=" + strings.Repeat("A", 23), "page_token=" + strings.Repeat("0", 32), "page_token=" + strings.Repeat("0", 33), "page_token=AAAAAAAAAAAAAAAAAAAAAA", "page_token=" + strings.Repeat("A", 4096), "page_token=00000000-0000-0000-0000-000000000000-", "page_token=%7B00000000-0000-0000-0000-000000000000%7D",
 	"max-depth=-1", "max-depth=abc", "max-depth=99999999999999999999", "max-depth=", "max-depth=1&max-depth=2", "subject=foo", "subject_id=a&subject_set.namespace=N0", "subject_set.namespace=N0", "subject_set.object=o&subject_set.relation=r",
 	"namespace=", "namespace=nope", "namespace=N0&namespace=N1", "unknown=1", "%zz", "a=%", "namespace=N0;object=o", "object=" + strings.Repeat("x", 5000), "relation=%00", "subject_set.namespace=nope&subject_set.object=o&subject_set.relation=r",
 }
@@ -201,7 +201,7 @@ func (s *Sys) genHostileGRPC(t *Tape, dom Domain, existing []Tuple) hostileReq {
 	}
 	depth := []int32{0, -1, 1, 1 << 30, -(1 << 31)}[t.Choose(5)]
 	size := []int32{0, -1, -100, 1, 1 << 30}[t.Choose(5)]
-	tok := []string{"", "x", "00000000-0000-0000-0000-000000000000"}[t.Choose(3)]
+	tok := []string{"", "x", "00000000-0000-0000-0000-000000000000", "0000000000000000000000000000000000", strings.Repeat("A", 23), strings.Repeat("Az09_-", 20), strings.Repeat("A", 4096)}[t.Choose(7)]
 	switch k := t.Choose(14); k {
 	case 0:
 		h.Desc = fmt.Sprintf("Check{Tuple:%v MaxDepth:%d}", pt, depth)
